@@ -353,6 +353,30 @@ fn hyrax(c: &mut Ctx) {
         let acc = HyraxPCT::check(&vk, cm.iter(), &z, vec![p.evaluate(&z)], &pr, &mut spv, None).unwrap_or(false);
         c.events.push(json!({"ev": "open", "scheme": "hyrax", "hiding": true, "dim": dim, "sup": 1, "npolys": 1,
             "start": smp.len(), "n": n_open, "proof_blind_ok": acc}));
+        // several polynomials in ONE commit and ONE open call: every polynomial gets its own blinders
+        c.events.push(json!({"ev": "reset"}));
+        let mut rng = LogRng::new(4100 + nv as u64);
+        let lps: Vec<_> = (0..3)
+            .map(|i| LabeledPolynomial::new(plabel(i + 1), ml_poly::<F>(&spec, nv, &mut rp), None, None))
+            .collect();
+        let (cm, st) = HyraxPCT::commit(&ck, lps.iter(), Some(&mut rng as &mut dyn RngCore)).unwrap();
+        let smp: Vec<F> = samples(&rng.bytes);
+        let mut all_rands: Vec<F> = vec![];
+        for s_ in st.iter() {
+            all_rands.extend(ark_poly_commit::verif_api::hyrax::state_parts(s_).0);
+        }
+        c.events.push(json!({"ev": "commit", "scheme": "hyrax", "nv": nv, "sup": 1,
+            "polys": (0..3).map(|_| json!({"h": -1, "bounded": false})).collect::<Vec<_>>(),
+            "start": 0, "n": smp.len(), "state_is_samples": drawn_from(&all_rands, &smp), "blind_ok": true, "state_empty": false}));
+        let mut sp = LogSponge::<F>::fresh();
+        let b2 = rng.consumed();
+        let pr = HyraxPCT::open(&ck, lps.iter(), cm.iter(), &z, &mut sp, st.iter(), Some(&mut rng as &mut dyn RngCore)).unwrap();
+        let n_open = samples::<F>(&rng.bytes[b2..]).len();
+        let mut spv = LogSponge::<F>::fresh();
+        let vals: Vec<F> = lps.iter().map(|q| q.evaluate(&z)).collect();
+        let acc = HyraxPCT::check(&vk, cm.iter(), &z, vals, &pr, &mut spv, None).unwrap_or(false);
+        c.events.push(json!({"ev": "open", "scheme": "hyrax", "hiding": true, "dim": dim, "sup": 1, "npolys": 3,
+            "start": smp.len(), "n": n_open, "proof_blind_ok": acc}));
     }
 }
 
